@@ -453,9 +453,39 @@ pub open spec fn ord_dir(x: OrderExpr) -> Seq<Ev> {
 pub open spec fn ord_nulls_std(x: OrderExpr) -> Seq<Ev> {
     match x.nulls { None => Seq::<Ev>::empty(), Some(NullOrdering::Last) => seq![lit(" NULLS LAST")], Some(NullOrdering::First) => seq![lit(" NULLS FIRST")] }
 }
+// MySQL's emulation: an extra leading sort key `<expr> IS NULL <d>`; its direction is mysql_isnull_desc (NULLS LAST -> ASC, NULLS FIRST -> DESC)
+pub open spec fn mysql_isnull_desc(n: NullOrdering) -> bool { n is First }
 pub open spec fn ord_nulls_mysql(x: OrderExpr) -> Seq<Ev> {
-    match x.nulls { None => Seq::<Ev>::empty(), Some(NullOrdering::Last) => seq![Ev::Expr(x.expr), lit(" IS NULL ASC, ")], Some(NullOrdering::First) => seq![Ev::Expr(x.expr), lit(" IS NULL DESC, ")] }
+    match x.nulls { None => Seq::<Ev>::empty(), Some(n) => seq![Ev::Expr(x.expr), lit(if mysql_isnull_desc(n) { " IS NULL DESC, " } else { " IS NULL ASC, " })] }
 }
+// ---- C09: the emulation is EQUIVALENT to the native form ------------------------------------------------------------------------------
+// a sort key's value is NULL (None) or a number.  Native (SQL:2003 / PostgreSQL 7.5 / SQLite lang_select): `x <dir> NULLS FIRST|LAST` puts the
+// NULLs first / last whatever the direction and orders the other values by the direction.  MySQL (manual, "Working with NULL Values"):
+// `ORDER BY x <dir>` treats NULL as lower than every value (first in ASC, last in DESC); `x IS NULL` is 1 for NULL and 0 otherwise.
+pub enum Cmp3 { Lt, Eq, Gt }
+pub open spec fn cmp_int(a: int, b: int) -> Cmp3 { if a < b { Cmp3::Lt } else if a == b { Cmp3::Eq } else { Cmp3::Gt } }
+pub open spec fn flip(c: Cmp3, desc: bool) -> Cmp3 { if !desc { c } else { match c { Cmp3::Lt => Cmp3::Gt, Cmp3::Eq => Cmp3::Eq, Cmp3::Gt => Cmp3::Lt } } }
+pub open spec fn cmp_native(a: Option<int>, b: Option<int>, desc: bool, nulls_first: bool) -> Cmp3 {
+    match (a, b) {
+        (None, None) => Cmp3::Eq,
+        (None, Some(_)) => if nulls_first { Cmp3::Lt } else { Cmp3::Gt },
+        (Some(_), None) => if nulls_first { Cmp3::Gt } else { Cmp3::Lt },
+        (Some(x), Some(y)) => flip(cmp_int(x, y), desc),
+    }
+}
+pub open spec fn cmp_mysql_key(a: Option<int>, b: Option<int>, desc: bool) -> Cmp3 {
+    flip(match (a, b) { (None, None) => Cmp3::Eq, (None, Some(_)) => Cmp3::Lt, (Some(_), None) => Cmp3::Gt, (Some(x), Some(y)) => cmp_int(x, y) }, desc)
+}
+pub open spec fn is_null_num(a: Option<int>) -> int { if a is None { 1 } else { 0 } }
+// ORDER BY (x IS NULL) <d0>, x <dir>: lexicographic
+pub open spec fn cmp_emulated(a: Option<int>, b: Option<int>, desc: bool, isnull_desc: bool) -> Cmp3 {
+    let c0 = flip(cmp_int(is_null_num(a), is_null_num(b)), isnull_desc);
+    if c0 != Cmp3::Eq { c0 } else { cmp_mysql_key(a, b, desc) }
+}
+// for every pair of rows, both directions and both NULLS orderings: the emulated key list orders the rows exactly as the native form does
+pub proof fn lemma_mysql_nulls_emulation(a: Option<int>, b: Option<int>, desc: bool, n: NullOrdering)
+    ensures cmp_emulated(a, b, desc, mysql_isnull_desc(n)) == cmp_native(a, b, desc, n is First)
+{}
 ''', "render::order-item-spec", props=P)
     for ty, d, sp in [("MysqlQueryBuilder", "mysql", "ord_nulls_mysql(*order_expr) + ord_key(*order_expr) + ord_dir(*order_expr)"),
                       ("PostgresQueryBuilder", "postgres", "ord_key(*order_expr) + ord_dir(*order_expr) + ord_nulls_std(*order_expr)"),
